@@ -52,9 +52,9 @@ def extra_specs(tier):
 
 
 def enumerate_cases(tier, seed):
-    from ..instances import families
+    from ..instances import families, feature_instances
 
-    specs = [(i.family, i.spec) for i in families(tier, seed)] + extra_specs(tier)
+    specs = [(i.family, i.spec) for i in families(tier, seed)] + [(i.family, i.spec) for i in feature_instances(tier, seed)] + extra_specs(tier)
     from . import c02
 
     specs += [("c02-mol", s) for (k, s, d) in c02.higher_specs(tier, seed) if k == "mol"][:: (1 if tier == "thorough" else 3)]
@@ -308,6 +308,9 @@ def mismatch_class(kname, key, exp, got, ref, nspec):
                 cand = [k for k in ref if k[0] == ei + 1 and k[1] == "rep" and R.compat(d, ref[k]["desc"])]
                 law = {k: p for k, p in zip(cand, R.weights_to_probs([ref[k]["desc"].weight for k in cand])) if p > 0}
                 if set(law) == set(nz) and all(abs(law[k] - nz[k]) < 1e-9 for k in law):
+                    return "left-terminal-transition-list-ignored"
+                if not nz and cand and all(ref[k]["desc"].weight == 0 for k in cand) and set(got) <= set(cand):
+                    # the plain weight law of an all-zero group as the graph writes it (zeros), again without the list
                     return "left-terminal-transition-list-ignored"
     if kname == "trans_prob" and exp and not nz:
         ei = key[0]
